@@ -62,6 +62,7 @@ var (
 
 	inHeader     = false
 	regParagraph = regexp.MustCompile(`(?s).*?\n\n|$`)
+	regHeaderEnd = regexp.MustCompile(`[\t ]*\{[\t \r]*(#.*)?$`)
 )
 
 // Parse the line rule from a raw string.
@@ -667,7 +668,8 @@ done:
 		case tmp == "":
 			continue
 		case strings.HasPrefix(tmp, PROFILE.Tok()):
-			rawHeader = strings.TrimRight(tmp, "{")
+			// Up to the brace that opens the block, whatever follows it
+			rawHeader = regHeaderEnd.ReplaceAllString(tmp, "")
 			nb = i
 			break done
 		case strings.HasPrefix(tmp, HAT.String()), strings.HasPrefix(tmp, HAT.Tok()):
